@@ -82,6 +82,7 @@ EditEffect(op, n) ==
     [] op \in {"retarget", "tolink", "createlink"} -> L("t9")
     [] op \in {"newchild", "tofile", "createfile"} -> DF("d9", FALSE, VNew)
     [] op \in {"todir", "createdir"} -> D(<<>>)
+    [] op = "createfifo" -> U
     [] OTHER -> Nil    \* delete
 
 \* the plan a reconciliation towards `target` yields for the scanned disk
